@@ -1,15 +1,20 @@
 (* C10 -- per-type output ignores sibling types, processing order and earlier runs in the same interpreter.
-   Statements only; every proof is `exact <lemma>`.
-   Models: Gen/GenState.v (hand model of the generator process: unique-name singleton, memo tables, per-generator line
-   post-processor objects, _generate_code, generate_all, histories; tied by correspondence), Generated/Gen_Uniq.v (T2
-   translation of UniqueNameGenerator and the translated fact generate_code_resets_uniq), Generated/Gen_LinePP.v (T2
-   translation of LimitEmptyLines / TrimTrailingWhitespace), Gen/Lookup.v (C16's model of the template lookup walk and its memo,
-   imported).  `log ... h` is the list of files written by history h started in
-   a new interpreter; `alone ... cf pps o` is the file of type object o written as the first and only file of a new interpreter. *)
-From Verif Require Import GenState GenStateThm GenStateSites Gen_Sites GenStateThmSites GenStateThmSolid.
-From Verif Require Lookup LookupThm.
+   Statements only; every proof is `exact <lemma>` or a short composition.  Theorems about code that is no longer in /repo
+   (the shared LimitEmptyLines counter, F-LEL-LEAK) live in History/C10_history.v.
+   Models: Gen/GenState.v (hand model of the generator process: unique-name singleton, memo tables looked up through the key
+   projection the site inventory dictates, a scratch state visible exactly when the store inventory has an inadmissible
+   entry, per-generator line post-processor objects and loader memo, _generate_code, generate_all with per-call arguments,
+   dry runs, histories; tied by correspondence), Generated/Gen_Uniq.v (T2 translation of UniqueNameGenerator, LimitEmptyLines.reset
+   and the translated reset facts), Generated/Gen_LinePP.v, Generated/Gen_Sites.v (inventories regenerated from src/nunavut:
+   memoisation sites, stores on long-lived objects with their phase, unique-name filters), Gen/Lookup.v + Generated/Gen_Lookup.v
+   (C16's lookup model and the regenerated pydsdl class forest, imported).
+   `log ... h` = the files written by history h started in a new interpreter. *)
+From Verif Require Import GenState GenStateThm GenStateSites Gen_Sites GenStateThmSites GenStateThmSubset.
+From Verif Require Lookup LookupThm LookupInst LookupInstThm.
 Open Scope N_scope.
 
+(* ---------------------------------------------------------------------------------------------------------------------- *)
+(* (1) the unique-name generator                                                                                          *)
 (* (1) uniq_reset: after UniqueNameGenerator.reset() the names handed out are a function of THIS file's call sequence only:
    the number in the i-th name is the number of earlier calls of this file with the same (key, base token). *)
 Theorem C10_uniq_reset :
@@ -22,6 +27,21 @@ Theorem C10_generate_code_resets : generate_code_resets_uniq = true /\ generate_
 Proof. split; reflexivity. Qed.
 Print Assumptions C10_generate_code_resets.
 
+(* the line processors: _generate_code tells every line processor that a new file begins (translated facts: the call
+   `line_pps.append(_reset_line_pp(pp))` precedes the consumption of the template generator, _reset_line_pp calls reset(),
+   and the translated LimitEmptyLines.reset restores the constructed state).  With that the statement holds with NO side
+   condition.  `negb generate_code_resets_line_pps` is the model's lel_shared: if the reset call disappears from the source
+   this theorem no longer type-checks. *)
+Theorem C10_line_pps_reset :
+  generate_code_resets_line_pps = true /\
+  forall s : LimitEmptyLines_state,
+    pp_fresh (PLimit s) = PLimit (LimitEmptyLines_reset s) /\
+    LimitEmptyLines_reset s = LimitEmptyLines_init (LimitEmptyLines_max_empty_lines s).
+Proof. split; [reflexivity | exact lel_reset_fresh]. Qed.
+Print Assumptions C10_line_pps_reset.
+
+(* ---------------------------------------------------------------------------------------------------------------------- *)
+(* (2) memo tables                                                                                                        *)
 (* (2) cache transparency: a call through an lru_cache/dict memo whose entries were all produced by the function returns what
    the function returns and keeps the table valid -- any maxsize, any eviction, any history of calls. *)
 Theorem C10_cache_transparent :
@@ -29,15 +49,6 @@ Theorem C10_cache_transparent :
     cache_ok f c -> snd (lru_call f maxsize c k) = f k /\ cache_ok f (fst (lru_call f maxsize c k)).
 Proof. exact lru_call_transparent. Qed.
 Print Assumptions C10_cache_transparent.
-
-(* rendering through any valid memo table = rendering without one *)
-Theorem C10_render_cache_transparent :
-  forall (cfun : ckey -> str) (maxsize : option nat) (self : N) (p : prog) (u : UniqueNameGenerator_state) (c : cache),
-    cache_ok cfun c ->
-    (fst (fst (run_prog cfun maxsize self p u c)), snd (run_prog cfun maxsize self p u c)) = prog_out cfun self p u /\
-    cache_ok cfun (snd (fst (run_prog cfun maxsize self p u c))).
-Proof. exact run_prog_transparent. Qed.
-Print Assumptions C10_render_cache_transparent.
 
 (* (2') why the key matters: a memo looked up through a projection of the arguments is transparent when the memoised function
    reads only what the projection keeps, and NOT otherwise (second call returns the first call's value). *)
@@ -56,15 +67,14 @@ Theorem C10_coarse_key_refuted :
 Proof. exact coarse_key_refuted_lemma. Qed.
 Print Assumptions C10_coarse_key_refuted.
 
-(* (2'') the inventory of ALL memoisation / mutable-state sites of src/nunavut (regenerated by the scanner on every run:
-   lru_cache/cache, cached_property, instance memos, lazily initialised fields, class-level singletons, mutable class and
-   module level containers, `global`): every site is of a kind the lemmas above cover -- lru_cache on a method keyed by the
-   identity of self and by-value arguments, on a pure module-level function with by-value arguments, per-instance state,
-   containers nobody writes, a singleton that _generate_code replaces for every file -- or is a listed finding
-   (Language.get_dependency_builder: keyed by a pydsdl object whose __eq__ ignores its content, F-DEPBUILDER-STALE). *)
-Theorem C10_all_caches_keyed_by_identity_or_value :
-  forallb (fun s => site_ok s || is_known_inadmissible s) g_sites = true.
-Proof. exact all_sites_admissible_lemma. Qed.
+(* ---------------------------------------------------------------------------------------------------------------------- *)
+(* (3) the inventories regenerated from the source on every run (facts by vm_compute; they are PREMISES of (5))           *)
+
+(* every memoisation site (lru_cache/cache, cached_property, instance memos, lazy fields, singletons, mutable containers,
+   global) is keyed by the identity of self and by-value arguments / is per instance / is never written / is replaced per
+   file, and no caller modifies a memoised value.  No exception is listed at present. *)
+Theorem C10_all_caches_keyed_by_identity_or_value : forallb site_ok g_sites = true.
+Proof. exact sites_admissible_strict_lemma. Qed.
 Print Assumptions C10_all_caches_keyed_by_identity_or_value.
 
 (* ... and every site is in the committed, reviewed inventory (a new cache, a cache moved to module level or to another class,
@@ -73,12 +83,24 @@ Theorem C10_sites_in_inventory : forallb in_inventory g_sites = true.
 Proof. exact sites_in_inventory_lemma. Qed.
 Print Assumptions C10_sites_in_inventory.
 
+(* every STORE on an object that outlives a file (attribute / item store, augmented assignment, del, setattr, mutating method
+   call on self, cls, a module global, a closed-over variable or an alias of something reached from them; outside __init__;
+   every module of src/nunavut) that lies in the render phase (reachable from generate_all, a post-processor's __call__, any
+   filter / test / uses-query) is classified: reset per file (needs the translated reset facts), overwritten per
+   generate_all call, memo of a pure function, or reviewed setup code.  An unclassified store -- e.g. a counter on a
+   post-processor, which is what F-LEL-LEAK was -- makes this false. *)
+Theorem C10_stores_classified : forallb (store_ok reset_facts) g_stores = true.
+Proof. exact stores_classified_lemma. Qed.
+Print Assumptions C10_stores_classified.
+
 (* every unique-name filter is registered so that it runs at render time, except the listed C++ one (F-CPP-UNIQ-FOLD) *)
 Theorem C10_uniq_filters_render_time :
   forallb (fun f => filter_ok f || str_in (f_lang f) known_foldable_langs) g_uniq_filters = true.
 Proof. exact uniq_filters_lemma. Qed.
 Print Assumptions C10_uniq_filters_render_time.
 
+(* ---------------------------------------------------------------------------------------------------------------------- *)
+(* (4) closure and template selection                                                                                     *)
 (* (3) the object a generator builds for type k is the same for every input set that contains k's dependency closure *)
 Theorem C10_closure_indep :
   forall (U : universe) (f1 f2 : nat) (I1 I2 : list (list N)) (k : list N) (o1 o2 : tyobj),
@@ -86,160 +108,148 @@ Theorem C10_closure_indep :
 Proof. exact resolve_indep_lemma. Qed.
 Print Assumptions C10_closure_indep.
 
-(* The pydsdl class graph: single inheritance below `object`, depth below the loop bound.  (C16_real_forest_hypotheses proves
-   this of the regenerated class table; the C10 check tests it on the table it hands to the extracted model.) *)
 Definition forest (bases : N -> list N) (rank : N -> nat) (fuel : nat) : Prop :=
   (forall c, (length (bases c) <= 1)%nat) /\ (forall c p, In p (bases c) -> (rank p < rank c)%nat) /\ (forall c, (rank c < fuel)%nat).
 
-(* (4a) template selection: in EVERY history the template chosen for a file is the template of the nearest class of the type's
-   inheritance chain that the generator's listing has -- a function of (class of the type, template listing) only; the loader
-   memo (kept across files and generate_all calls) cannot change it. *)
+(* the regenerated pydsdl class table IS such a forest (C16's lemmas over Generated/Gen_Lookup.v) *)
+Theorem C10_real_forest : forest LookupInst.p_bases LookupInst.p_rank LookupInst.p_fuel.
+Proof. exact (conj LookupInstThm.p_single (conj LookupInstThm.p_rank_ok LookupInstThm.p_rank_fuel)). Qed.
+Print Assumptions C10_real_forest.
+
+(* THE NAMED PREMISE about the template engine: which program (sequence of emit / unique-name / memoised-call / peek
+   operations) a template is for a type does not depend on the process state.  Backed -- outside Coq -- by the scanned facts
+   (3): every registered callable that keeps state is an inventoried site or store. *)
+Definition render_pure (render : ambient -> N -> option str -> tyobj -> prog) : Prop :=
+  forall (a1 a2 : ambient) cf tmpl o, render a1 cf tmpl o = render a2 cf tmpl o.
+
+(* in EVERY history the template chosen for a file is the nearest class of the type's inheritance chain that the generator's
+   listing has: a function of (class, listing) only; the loader memo cannot change it.  Real class forest. *)
 Theorem C10_template_selection_indep :
-  forall (U : universe) (bases : N -> list N) (cname : N -> str) (fuel : nat) (rank : N -> nat), forest bases rank fuel ->
-  forall (render : N -> option str -> tyobj -> prog) (cfun : ckey -> str) (lel_shared : bool) (m : option nat) (h : list op) (e : entry),
-    In e (log U bases cname fuel render cfun m generate_code_resets_uniq lel_shared h) ->
-    e_tmpl e = Lookup.nearest (Lookup.tmap cname (e_tset e)) (Lookup.chain_n bases (rank (obj_cls (e_obj e))) (obj_cls (e_obj e))).
+  forall (U : universe) (sites : list site) (stores : list store) (rfacts : bool),
+    forallb site_ok sites = true -> forallb (store_ok rfacts) stores = true ->
+  forall (render : ambient -> N -> option str -> tyobj -> prog), render_pure render ->
+  forall (cfun : ckey -> str) (lel_shared : bool) (m : option nat) (h : list op) (e : entry),
+    In e (log U LookupInst.p_bases LookupInst.p_name LookupInst.p_fuel sites stores rfacts render cfun m generate_code_resets_uniq lel_shared h) ->
+    e_tmpl e = Lookup.nearest (Lookup.tmap LookupInst.p_name (e_tset e))
+                 (Lookup.chain_n LookupInst.p_bases (LookupInst.p_rank (obj_cls (e_obj e))) (obj_cls (e_obj e))).
 Proof.
-  intros U bases cname fuel rank (H1 & H2 & H3) render cfun lel m h e Hin.
-  exact (template_selection_lemma U bases cname fuel rank H1 H2 H3 render cfun lel m h e Hin).
+  intros U sites stores rfacts Hs Hst render Hr cfun lel m h e Hin.
+  exact (template_selection_lemma U _ _ _ _ LookupInstThm.p_single LookupInstThm.p_rank_ok LookupInstThm.p_rank_fuel
+           sites stores rfacts Hs Hst render Hr cfun lel m h e Hin).
 Qed.
 Print Assumptions C10_template_selection_indep.
 
-(* (4) file_indep for the variant with processor objects shared across files (lel_shared = true, the code before 88d3c81): two files of the same type written under the same
-   configuration and template listing with identically constructed processors -- in ANY two histories (input sets, processing
-   orders, earlier runs, other generators, cache clearing, cache sizes) -- come from the same template and are equal, PROVIDED
-   the LimitEmptyLines counters of the writing generator were 0 when each file was started (e_clean; computed by the model,
-   excluded trigger of F-LEL-LEAK). *)
-Theorem C10_file_indep_partial :
-  forall (U : universe) (bases : N -> list N) (cname : N -> str) (fuel : nat) (rank : N -> nat), forest bases rank fuel ->
-  forall (render : N -> option str -> tyobj -> prog) (cfun : ckey -> str) (m1 m2 : option nat) (h1 h2 : list op) (e1 e2 : entry),
-    In e1 (log U bases cname fuel render cfun m1 generate_code_resets_uniq true h1) ->
-    In e2 (log U bases cname fuel render cfun m2 generate_code_resets_uniq true h2) ->
-    e_cfg e1 = e_cfg e2 -> e_tset e1 = e_tset e2 -> e_pps0 e1 = e_pps0 e2 -> e_key e1 = e_key e2 ->
-    e_clean e1 = true -> e_clean e2 = true ->
-    e_tmpl e1 = e_tmpl e2 /\ e_text e1 = e_text e2.
-Proof.
-  intros U bases cname fuel rank (F1 & F2 & F3) render cfun m1 m2 h1 h2 e1 e2 H1 H2 Hc Ht Hp Hk C1 C2.
-  exact (file_indep_lemma U bases cname fuel rank F1 F2 F3 render cfun true m1 m2 h1 h2 e1 e2 H1 H2 Hc Ht Hp Hk
-           (or_intror (conj C1 C2))).
-Qed.
-Print Assumptions C10_file_indep_partial.
+(* ---------------------------------------------------------------------------------------------------------------------- *)
+(* (5) per-type independence                                                                                              *)
 
-(* ... and each such file is the file the type gets as the first and only file of a new interpreter *)
-Theorem C10_file_alone_partial :
-  forall (U : universe) (bases : N -> list N) (cname : N -> str) (fuel : nat) (rank : N -> nat), forest bases rank fuel ->
-  forall (render : N -> option str -> tyobj -> prog) (cfun : ckey -> str) (m : option nat) (h : list op) (e : entry),
-    In e (log U bases cname fuel render cfun m generate_code_resets_uniq true h) -> e_clean e = true ->
-    (e_tmpl e, e_text e) =
-      alone bases cname fuel render cfun m generate_code_resets_uniq true (e_cfg e) (e_tset e) (e_pps0 e) (e_obj e).
-Proof.
-  intros U bases cname fuel rank (F1 & F2 & F3) render cfun m h e Hin Hc.
-  pose proof (log_entries_ok U bases cname fuel rank F1 F2 F3 render cfun m true h) as F. rewrite Forall_forall in F.
-  exact (proj2 (proj2 (F e Hin)) (or_intror Hc)).
-Qed.
-Print Assumptions C10_file_alone_partial.
-
-(* (4') the code as it is NOW: _generate_code tells every line processor that a new file begins (translated facts: the call
-   `line_pps.append(_reset_line_pp(pp))` precedes the consumption of the template generator, _reset_line_pp calls reset(),
-   and the translated LimitEmptyLines.reset restores the constructed state).  With that the statement holds with NO side
-   condition.  `negb generate_code_resets_line_pps` is the model's lel_shared: if the reset call disappears from the source
-   this theorem no longer type-checks. *)
-Theorem C10_line_pps_reset :
-  generate_code_resets_line_pps = true /\
-  forall s : LimitEmptyLines_state,
-    pp_fresh (PLimit s) = PLimit (LimitEmptyLines_reset s) /\
-    LimitEmptyLines_reset s = LimitEmptyLines_init (LimitEmptyLines_max_empty_lines s).
-Proof. split; [reflexivity | exact lel_reset_fresh]. Qed.
-Print Assumptions C10_line_pps_reset.
-
+(* GENERAL FORM.  Premises: the class graph is a forest; the memoisation-site table the model looks its memo keys up in is
+   admissible; the store table the model's per-file step consults has no inadmissible render-phase store; render_pure.
+   Then two files of the same type written under the same effective configuration (generator options + per-call arguments),
+   template listing and constructed processors -- in ANY two histories (input sets, orders, earlier runs, other generators,
+   repeated generate_all calls with other arguments, dry runs, cache clearing, cache sizes) -- come from the same template and
+   are equal.  `negb generate_code_resets_line_pps` is the model's lel_shared: without the translated per-file reset of the line
+   processors this does not type-check. *)
 Theorem C10_file_indep :
   forall (U : universe) (bases : N -> list N) (cname : N -> str) (fuel : nat) (rank : N -> nat), forest bases rank fuel ->
-  forall (render : N -> option str -> tyobj -> prog) (cfun : ckey -> str) (m1 m2 : option nat) (h1 h2 : list op) (e1 e2 : entry),
-    In e1 (log U bases cname fuel render cfun m1 generate_code_resets_uniq (negb generate_code_resets_line_pps) h1) ->
-    In e2 (log U bases cname fuel render cfun m2 generate_code_resets_uniq (negb generate_code_resets_line_pps) h2) ->
+  forall (sites : list site) (stores : list store) (rfacts : bool),
+    forallb site_ok sites = true -> forallb (store_ok rfacts) stores = true ->
+  forall (render : ambient -> N -> option str -> tyobj -> prog), render_pure render ->
+  forall (cfun : ckey -> str) (m1 m2 : option nat) (h1 h2 : list op) (e1 e2 : entry),
+    In e1 (log U bases cname fuel sites stores rfacts render cfun m1 generate_code_resets_uniq (negb generate_code_resets_line_pps) h1) ->
+    In e2 (log U bases cname fuel sites stores rfacts render cfun m2 generate_code_resets_uniq (negb generate_code_resets_line_pps) h2) ->
     e_cfg e1 = e_cfg e2 -> e_tset e1 = e_tset e2 -> e_pps0 e1 = e_pps0 e2 -> e_key e1 = e_key e2 ->
     e_tmpl e1 = e_tmpl e2 /\ e_text e1 = e_text e2.
 Proof.
-  intros U bases cname fuel rank (F1 & F2 & F3) render cfun m1 m2 h1 h2 e1 e2 H1 H2 Hc Ht Hp Hk.
-  exact (file_indep_lemma U bases cname fuel rank F1 F2 F3 render cfun false m1 m2 h1 h2 e1 e2 H1 H2 Hc Ht Hp Hk
-           (or_introl eq_refl)).
+  intros U bases cname fuel rank (F1 & F2 & F3) sites stores rfacts Hs Hst render Hr cfun m1 m2 h1 h2 e1 e2 H1 H2 Hc Ht Hp Hk.
+  exact (file_indep_lemma U bases cname fuel rank F1 F2 F3 sites stores rfacts Hs Hst render Hr cfun false m1 m2 h1 h2 e1 e2
+           H1 H2 Hc Ht Hp Hk (or_introl eq_refl)).
 Qed.
 Print Assumptions C10_file_indep.
 
-(* (4'') why the built-in templates never showed the leak even before the reset existed: a file that has at least one line and
-   whose LAST line contains a non-blank character leaves every LimitEmptyLines counter at 0 (processors with non-negative
-   limits, any pipeline order, any chunking -- through C15's write_rj = linewise), so the next file starts clean (e_clean). *)
-Theorem C10_file_end_clean :
-  forall (ps : list pp) (chunks : list str),
-    pps_wf ps = true -> last_line_solid (concat chunks) = true ->
-    pps_clean (fst (write_builtin ps chunks)) = true /\ pps_wf (fst (write_builtin ps chunks)) = true.
-Proof. exact file_end_clean_lemma. Qed.
-Print Assumptions C10_file_end_clean.
+(* THE INSTANCE THE PROPERTY IS ABOUT: the regenerated inventories and the regenerated pydsdl class forest; the only premise left
+   is the named one about the template engine. *)
+Theorem C10_file_indep_real :
+  forall (U : universe) (render : ambient -> N -> option str -> tyobj -> prog), render_pure render ->
+  forall (cfun : ckey -> str) (m1 m2 : option nat) (h1 h2 : list op) (e1 e2 : entry),
+    In e1 (log U LookupInst.p_bases LookupInst.p_name LookupInst.p_fuel g_sites g_stores reset_facts render cfun m1
+               generate_code_resets_uniq (negb generate_code_resets_line_pps) h1) ->
+    In e2 (log U LookupInst.p_bases LookupInst.p_name LookupInst.p_fuel g_sites g_stores reset_facts render cfun m2
+               generate_code_resets_uniq (negb generate_code_resets_line_pps) h2) ->
+    e_cfg e1 = e_cfg e2 -> e_tset e1 = e_tset e2 -> e_pps0 e1 = e_pps0 e2 -> e_key e1 = e_key e2 ->
+    e_tmpl e1 = e_tmpl e2 /\ e_text e1 = e_text e2.
+Proof.
+  intros U render Hr cfun m1 m2 h1 h2 e1 e2.
+  exact (C10_file_indep U _ _ _ _ C10_real_forest g_sites g_stores reset_facts C10_all_caches_keyed_by_identity_or_value
+           C10_stores_classified render Hr cfun m1 m2 h1 h2 e1 e2).
+Qed.
+Print Assumptions C10_file_indep_real.
 
-(* (4''') per-call arguments and dry runs.  `e_cfg` of a file is `ecfg cfg args`: the generator's configuration TOGETHER with
-   the per-call arguments of the generate_all() that wrote it (omit_serialization_support, embed_auditing_info), so (4') also
-   says: a generator called again with other arguments writes what a new generator given those arguments writes.  A dry run
-   writes nothing and leaves unique names, memo tables and line processors untouched. *)
+(* SUBSET.  S ⊆ W are two input sets (a dependency-closed subset of the namespace and the whole namespace, say), k is
+   processed in both runs (any two orders), the dependency closure of k lies inside S (resolve_in succeeds).  Then the file for
+   k EXISTS in the run over S and in the run over W, comes from the same template and is byte-identical.  Runs: one new
+   interpreter each, one generator, one generate_all (single_run). *)
+Theorem C10_subset :
+  forall (U : universe) (render : ambient -> N -> option str -> tyobj -> prog), render_pure render ->
+  forall (cfun : ckey -> str) (m1 m2 : option nat) (cf : N) (ts : list (str * str)) (pps : list pp) (args : N)
+         (S W ordS ordW : list (list N)) (k : list N) (o : tyobj),
+    incl S W -> In k ordS -> In k ordW -> resolve_in U S k = Some o ->
+    exists eS eW,
+      In eS (log U LookupInst.p_bases LookupInst.p_name LookupInst.p_fuel g_sites g_stores reset_facts render cfun m1 true false
+                 (single_run cf ts pps S ordS args)) /\
+      In eW (log U LookupInst.p_bases LookupInst.p_name LookupInst.p_fuel g_sites g_stores reset_facts render cfun m2 true false
+                 (single_run cf ts pps W ordW args)) /\
+      e_key eS = k /\ e_key eW = k /\ e_tmpl eS = e_tmpl eW /\ e_text eS = e_text eW.
+Proof.
+  intros U render Hr cfun m1 m2 cf ts pps args S W ordS ordW k o.
+  exact (subset_lemma U _ _ _ _ LookupInstThm.p_single LookupInstThm.p_rank_ok LookupInstThm.p_rank_fuel g_sites g_stores reset_facts
+           C10_all_caches_keyed_by_identity_or_value C10_stores_classified render Hr cfun m1 m2 cf ts pps args S W ordS ordW k o).
+Qed.
+Print Assumptions C10_subset.
+
+(* the runs of C10_subset are the runs of the code as translated: reset present, line processors reset *)
+Theorem C10_subset_is_current_code : generate_code_resets_uniq = true /\ negb generate_code_resets_line_pps = false.
+Proof. split; reflexivity. Qed.
+Print Assumptions C10_subset_is_current_code.
+
+(* the premises are not decoration: with an inadmissible site in the table the model's memo returns a stale value, with an
+   unclassified render-phase store the model lets a file see what earlier files left *)
+Theorem C10_premises_are_consulted :
+  (let bad := {| s_file := []; s_name := []; s_kind := KModuleGlobal; s_params := []; s_flag := false; s_key := [];
+                 s_value_mutable := false; s_value_mutated := false |} in
+   let c1 := fst (proj_call (memo_proj [bad] 0) snd None [] (1, [65])) in
+   snd (proj_call (memo_proj [bad] 0) snd None c1 (1, [66])) = [65]) /\
+  (let bad := {| st_file := []; st_fn := []; st_target := [120]; st_root := RSelf; st_phase := SRender |} in
+   stores_leak true [bad] = true /\ stores_leak true g_stores = false).
+Proof. exact (conj inadmissible_site_is_observable unclassified_store_leaks). Qed.
+Print Assumptions C10_premises_are_consulted.
+
+(* ---------------------------------------------------------------------------------------------------------------------- *)
+(* (6) per-call arguments and dry runs: e_cfg of a file is ecfg cfg args (the generator's configuration together with the
+   arguments of the generate_all that wrote it), so (5) covers repeated calls; a dry run writes nothing and leaves unique
+   names, memo tables, scratch state and line processors untouched.                                                        *)
 Theorem C10_dry_run_inert :
-  forall U bases cname fuel render cfun maxsize resets lel (s : pstate) (gid : nat) (args : N) (order : list (list N)),
-    let r := op_step U bases cname fuel render cfun maxsize resets lel s (ORun gid args true order) in
-    snd r = [] /\ p_uniq (fst r) = p_uniq s /\ p_cache (fst r) = p_cache s /\
+  forall U bases cname fuel sites stores rfacts render cfun maxsize resets lel (s : pstate) (gid : nat) (args : N) (order : list (list N)),
+    let r := op_step U bases cname fuel sites stores rfacts render cfun maxsize resets lel s (ORun gid args true order) in
+    snd r = [] /\ p_uniq (fst r) = p_uniq s /\ p_cache (fst r) = p_cache s /\ p_scratch (fst r) = p_scratch s /\
     map go_pps (p_gens (fst r)) = map go_pps (p_gens s).
 Proof. exact dry_run_lemma. Qed.
 Print Assumptions C10_dry_run_inert.
 
-(* (5) WITHOUT that reset (lel_shared = true: the code before commit 88d3c81, finding F-LEL-LEAK, now fixed) the unrestricted
-   statement is FALSE: this is what the check looks for if the leak ever returns.
-   the unrestricted statement is FALSE of the model of the code as it was: known finding F-LEL-LEAK.  Witness: limit 1, file
-   of A = "a\n\n", file of B = "\nb"; whole namespace: B = "b"; subset {B}: B = "\nb". *)
-Theorem C10_lel_leak_refuted :
-  exists (U : universe) (render : N -> option str -> tyobj -> prog) (cfun : ckey -> str) (h1 h2 : list op) (e1 e2 : entry),
-    In e1 (log U (ct_bases w_ct) (ct_name w_ct) 4 render cfun None true true h1) /\
-    In e2 (log U (ct_bases w_ct) (ct_name w_ct) 4 render cfun None true true h2) /\
-    e_cfg e1 = e_cfg e2 /\ e_tset e1 = e_tset e2 /\ e_pps0 e1 = e_pps0 e2 /\ e_key e1 = e_key e2 /\ e_text e1 <> e_text e2.
-Proof. exact lel_leak_refuted_lemma. Qed.
-Print Assumptions C10_lel_leak_refuted.
-
-Theorem C10_lel_leak_witness :
-  map e_text (exec_table w_ct w_U false w_tab None true true w_hist_whole) = [[97; 10; 10]; [98]] /\
-  map e_text (exec_table w_ct w_U false w_tab None true true w_hist_subset) = [[10; 98]].
-Proof. exact lel_leak_witness. Qed.
-Print Assumptions C10_lel_leak_witness.
-
-(* the witness lives in a class forest that satisfies the hypotheses of (4) *)
-Theorem C10_witness_forest : forest (ct_bases w_ct) w_rank 4.
-Proof. exact w_forest_ok. Qed.
-Print Assumptions C10_witness_forest.
-
-(* (6) the same as (4') with lel_shared written out as false *)
-Theorem C10_file_indep_noleak :
-  forall (U : universe) (bases : N -> list N) (cname : N -> str) (fuel : nat) (rank : N -> nat), forest bases rank fuel ->
-  forall (render : N -> option str -> tyobj -> prog) (cfun : ckey -> str) (m1 m2 : option nat) (h1 h2 : list op) (e1 e2 : entry),
-    In e1 (log U bases cname fuel render cfun m1 generate_code_resets_uniq false h1) ->
-    In e2 (log U bases cname fuel render cfun m2 generate_code_resets_uniq false h2) ->
-    e_cfg e1 = e_cfg e2 -> e_tset e1 = e_tset e2 -> e_pps0 e1 = e_pps0 e2 -> e_key e1 = e_key e2 ->
-    e_tmpl e1 = e_tmpl e2 /\ e_text e1 = e_text e2.
-Proof.
-  intros U bases cname fuel rank (F1 & F2 & F3) render cfun m1 m2 h1 h2 e1 e2 H1 H2 Hc Ht Hp Hk.
-  exact (file_indep_lemma U bases cname fuel rank F1 F2 F3 render cfun false m1 m2 h1 h2 e1 e2 H1 H2 Hc Ht Hp Hk
-           (or_introl eq_refl)).
-Qed.
-Print Assumptions C10_file_indep_noleak.
-
 (* non-vacuity: class forest C <- S, C <- U; listing {C.j2, U.j2}; struct A, union B depending on A.  Two generators, a subset,
-   permuted order, a second run, cache clearing, maxsize 1: every file starts with zeroed counters, the union always gets
-   U.j2 and the struct C.j2 (marker at the start of the text), the shared type gets the same text every time. *)
-Example C10_partial_premise_satisfiable :
+   permuted order, a dry run, a second run, cache clearing, maxsize 1: the union always gets U.j2 and the struct C.j2 (marker
+   at the start of the text), the shared type gets the same text every time. *)
+Example C10_histories_exist :
   let ts := [([67], [67; 46; 106; 50]); ([85], [85; 46; 106; 50])] in
   let U := [([65], {| d_cls := 1; d_body := [120]; d_deps := [] |}); ([66], {| d_cls := 2; d_body := [121]; d_deps := [[65]] |})] in
   let tab := [((16, [65]), [IText [97; 10]; IUniq [99] [102] [95] [95]; IText [10]]);
               ((16, [66]), [IUniq [99] [102] [95] [95]; IUniq [99] [102] [95] [95]; IText [10; 10; 98; 10]])] in
   let h := [ONew 1 ts [PLimit (LimitEmptyLines_init 1); PTrim] [[65]; [66]]; ORun 0 0 false [[65]; [66]];
-            ONew 1 ts [PLimit (LimitEmptyLines_init 1); PTrim] [[65]]; ORun 1 0 true [[65]]; ORun 1 0 false [[65]]; OClear; ORun 0 0 false [[66]; [65]]] in
-  map (fun e => (e_key e, e_tmpl e, e_clean e)) (exec_table w_ct U true tab (Some 1%nat) true true h) =
-    [([65], Some [67; 46; 106; 50], true); ([66], Some [85; 46; 106; 50], true); ([65], Some [67; 46; 106; 50], true);
-     ([66], Some [85; 46; 106; 50], true); ([65], Some [67; 46; 106; 50], true)] /\
-  map e_text (filter (fun e => str_eqb (e_key e) [65]) (exec_table w_ct U true tab (Some 1%nat) true true h)) =
+            ONew 1 ts [PLimit (LimitEmptyLines_init 1); PTrim] [[65]]; ORun 1 0 true [[65]]; ORun 1 0 false [[65]]; OClear;
+            ORun 0 0 false [[66]; [65]]] in
+  map (fun e => (e_key e, e_tmpl e)) (exec_table w_ct U true tab (Some 1%nat) true false h) =
+    [([65], Some [67; 46; 106; 50]); ([66], Some [85; 46; 106; 50]); ([65], Some [67; 46; 106; 50]);
+     ([66], Some [85; 46; 106; 50]); ([65], Some [67; 46; 106; 50])] /\
+  map e_text (filter (fun e => str_eqb (e_key e) [65]) (exec_table w_ct U true tab (Some 1%nat) true false h)) =
     [[60; 67; 46; 106; 50; 62; 97; 10; 95; 102; 48; 95; 10]; [60; 67; 46; 106; 50; 62; 97; 10; 95; 102; 48; 95; 10];
      [60; 67; 46; 106; 50; 62; 97; 10; 95; 102; 48; 95; 10]].
 Proof. vm_compute. split; reflexivity. Qed.
